@@ -38,7 +38,7 @@ ASSUMPTIONS = [
   "implicit:actuator_vel_derivative_* would otherwise be re-reported here); worlds where MuJoCo 3.13 applies its extra "
   "implicit treatment of free bodies are skipped for oracle II",
 ]
-BUDGET = {"quick": 150, "thorough": 1200}
+BUDGET = {"quick": 240, "thorough": 1200}
 
 INT_ENUM = {"Euler": 0, "RK4": 1, "implicit": 2, "implicitfast": 3}
 
